@@ -77,15 +77,17 @@ theorem escape_punct (s : IState) (c : Char) (hc : isAsciiPunct c = true)
 /-- the rules in front of `escape` in the chain decline at a backslash without touching the state -/
 theorem text_declines_at_backslash (s : IState) (h0 : s.src[s.pos]? = some '\\') (hpos : s.pos < s.src.length) :
     ruleText s false = .ok (false, s) := by
-  unfold ruleText
   have hdrop : s.src.drop s.pos = '\\' :: s.src.drop (s.pos + 1) := by
     rw [List.drop_eq_getElem_cons hpos]
     congr 1
     have := List.getElem?_eq_getElem hpos
     rw [h0] at this; exact (Option.some.inj this).symm
-  have hfind : (s.src.drop s.pos).findIdx? (fun c => Gen.terminatorChars.contains c.toNat) = some 0 := by
-    rw [hdrop]; simp [List.findIdx?_cons]; decide
-  simp only [hfind, Nat.add_zero, BEq.rfl, if_true]
+  have hend : textEnd s = s.pos := by
+    unfold textEnd
+    rw [hdrop, List.findIdx?_cons]
+    have : isTerminator '\\' = true := by decide
+    simp [this]
+  simp [ruleText, hend]
 
 theorem newline_declines_at_backslash (s : IState) (h0 : s.src[s.pos]? = some '\\') :
     ruleNewline s false = .ok (false, s) := by
